@@ -8,7 +8,9 @@
 #include <yaclib/async/share.hpp>
 #include <yaclib/async/shared_contract.hpp>
 #include <yaclib/async/shared_future.hpp>
+#include <yaclib/async/make.hpp>
 #include <yaclib/async/wait.hpp>
+#include <yaclib/async/when_all.hpp>
 
 #include <optional>
 
@@ -23,6 +25,7 @@ struct Obs {
   std::optional<yaclib::SharedFuture<Payload>> sf;
   std::optional<yaclib::Future<int>> next;
   std::optional<yaclib::Future<Payload>> shared;
+  std::optional<yaclib::Future<std::vector<yaclib::Result<Payload>>>> when;
 };
 
 VRT_SCENARIO(sh, "fulfiller + observers on copies of one SharedFuture") {
@@ -94,6 +97,11 @@ VRT_SCENARIO(sh, "fulfiller + observers on copies of one SharedFuture") {
       } else if (op == "share") {
         vrt::Api api{"Share"};
         me.shared.emplace(yaclib::Share(sf));
+      } else if (op == "whenall") {
+        // the combinator takes over this copy and later RETIRES the value from the shared state: a copy, or a move when
+        // it is provably the last owner
+        vrt::Api api{"WhenAll"};
+        me.when.emplace(yaclib::WhenAll<yaclib::FailPolicy::None>(std::move(sf), yaclib::MakeFuture<Payload>(Payload{3})));
       } else if (op == "copy_drop") {
         vrt::Api api{"Copy"};
         auto copy = sf;
@@ -132,6 +140,15 @@ VRT_SCENARIO(sh, "fulfiller + observers on copies of one SharedFuture") {
     if (obs[i].next) {
       ctx.Final(name + "_next", obs[i].next->Ready() ? vh::Desc(std::move(*obs[i].next).Get()) : std::string("not_ready"));
       obs[i].next.reset();
+    }
+    if (obs[i].when) {
+      std::string d = "not_ready";
+      if (obs[i].when->Ready()) {
+        auto r = std::move(*obs[i].when).Get();
+        d = r.State() == yaclib::ResultState::Value ? vh::Desc(std::as_const(r).Value()[0]) : std::string("failed");
+      }
+      ctx.Final(name + "_when", d);
+      obs[i].when.reset();
     }
     if (obs[i].shared) {
       ctx.Final(name + "_share",
